@@ -11,3 +11,110 @@ package tubes
 //@ func (m *Muxer) Accept() (t Tube, err error)
 //@   assume channel receive from the muxer's tube queue; queued tubes are non-nil
 //@   ensures err == nil ==> t != nil && ref(t) != nil
+
+// ===========================================================================
+// C11: frames and acknowledgements supplied by the peer cannot make the
+// receive path panic (decoding, re-parsing of initiate frames, ACK processing)
+// ===========================================================================
+//@ func flagsToMetaByte(p *frameFlags) (b byte)
+//@   inline
+//@ func metaToFlags(b byte) (f frameFlags)
+//@   inline
+
+// A frame decoded from a message is self-consistent: its length field is the length of the data
+// it carries, and the data was inside the message.
+//@ func fromBytes(b []byte) (f *frame, err error)
+//@   property C11 C09
+//@   pure
+//@   ensures err == nil ==> f != nil && fresh(f) && int(f.dataLength) == len(f.data) && len(f.data) + 12 <= (len(b) < 12 ? 12 : len(b))
+//@   ensures len(b) < 10 ==> err != nil
+
+//@ func (p *frame) toBytes() (out []byte)
+//@   property C11
+//@   pure
+//@   ensures len(out) == 12 + len(p.data) && out[2] == uint8(p.dataLength >> 8) && out[3] == uint8(p.dataLength)
+
+//@ func (p *initiateFrame) toBytes() (out []byte)
+//@   property C11
+//@   pure
+//@   ensures len(out) == 10 + len(p.data)
+
+// fromInitiateBytes has no error result: its callers must pass a message that holds the 10-byte header
+// and the data length that header announces (proved at the muxer's two call sites).
+//@ func fromInitiateBytes(b []byte) (f *initiateFrame)
+//@   property C11
+//@   pure
+//@   requires len(b) >= 10 && (int(b[2]) << 8) + int(b[3]) <= len(b) - 10 && len(b) <= 65535
+//@   ensures f != nil
+
+//@ func (c transport.MsgConn) ReadMsg(b []byte) (n int, err error)
+//@   assume message connection (transport.Handle / Client / test doubles): on success 0 <= n <= len(b)
+//@   modifies b[:], opaque(c)
+//@   ensures err == nil ==> 0 <= n && n <= len(b)
+//@ func (c transport.MsgConn) SetReadDeadline(t time.Time) (err error)
+//@   assume deadline bookkeeping of the connection
+//@   modifies opaque(c)
+
+// The muxer's receive buffer is the 65535-byte buffer allocated by newMuxer and never replaced.
+//@ stablefield tubes.Muxer.readBuf = tubes.newMuxer
+//@ objinv Muxer : len(self.readBuf) == 65535
+
+//@ func (m *Muxer) readMsg() (f *frame, err error)
+//@   property C11
+//@   modifies m.readBuf[:], opaque(m)
+//@   ensures err == nil ==> f != nil && fresh(f) && int(f.dataLength) == len(f.data) && len(f.data) <= 65523
+
+// ACK processing.  onSuccess looks at the oldest outstanding frame: it needs one.
+//@ func (s *sender) onSuccess(ackNo uint32)
+//@   property C11 C08
+//@   requires len(s.frames) >= 1 && s.frames[0].frame != nil
+//@   modifies s.RTT, s.RTO, s.senderWindow.cwndSize, s.senderWindow.state, s.senderWindow.duplicatedAckCounter
+
+//@ func (s *sender) onLoss(ackNo uint32) (missing uint32)
+//@   property C11 C08
+//@   modifies s.senderWindow.duplicatedAckCounter, s.senderWindow.ssThresh, s.senderWindow.cwndSize, s.senderWindow.state
+
+// Every outstanding frame record holds a frame (appended only by sender.framesToSend / sendEmptyPacket with a new frame).
+//@ objinv sender : forall i int :: 0 <= i && i < len(self.frames) ==> self.frames[i].frame != nil
+
+// recvAck never panics, whatever acknowledgement number the peer sends.
+//@ func (s *sender) recvAck(ackNo uint32) (missing uint32, err error)
+//@   property C11 C08
+//@   atomic
+//@   loop 1
+//@     invariant s.ackNo <= newAckNo ==> newAckNo - s.ackNo <= uint64(len(s.frames))
+//@     invariant forall i int :: 0 <= i && i < len(s.frames) ==> s.frames[i].frame != nil
+
+// The muxer's receive loop: every message is decoded by fromBytes (which rejects what is not a
+// self-consistent frame) and initiate frames are re-parsed from the decoded frame's own encoding,
+// which satisfies fromInitiateBytes' precondition.  What the tubes then do with a frame is C08 / C09.
+// Tubes are registered in the muxer's tables by make*TubeWithID with a freshly allocated tube: table entries are non-nil.
+//@ mapinv nonnil map[uint8]*tubes.Reliable : registered by makeReliableTubeWithID (r := &Reliable{...})
+//@ mapinv nonnil map[uint8]*tubes.Unreliable : registered by makeUnreliableTubeWithID
+// getTube hands out what the tables hold: a *Reliable or *Unreliable - a typed nil when there is no entry.
+//@ func (m *Muxer) getTube(isReliable bool, tubeID byte) (t Tube, ok bool)
+//@   property C11
+//@   atomic
+//@   modifies opaque(m)
+//@   ensures typeis(t, "*hop.computer/hop/tubes.Reliable") || typeis(t, "*hop.computer/hop/tubes.Unreliable")
+//@   ensures ok ==> ref(t) != nil
+//@ func (m *Muxer) makeReliableTubeWithID(tType TubeType, tubeID byte, req bool) (t *Reliable, err error)
+//@   assume tube construction (allocates a tube, registers it in the muxer's table, starts its goroutines); does not touch the frame being dispatched or the receive buffer
+//@   modifies opaque(m)
+//@ func (m *Muxer) makeUnreliableTubeWithID(tType TubeType, tubeID byte, req bool) (t *Unreliable, err error)
+//@   assume tube construction (as above)
+//@   modifies opaque(m)
+// Both implementations dereference their receiver: calling them through a typed-nil interface value panics.
+//@ func (t Tube) receiveInitiatePkt(pkt *initiateFrame) (err error)
+//@   assume the tube's own state machine (C08 / C09): touches only the tube
+//@   requires ref(t) != nil
+//@   modifies opaque(t)
+//@ func (t Tube) receive(pkt *frame) (err error)
+//@   assume the tube's own state machine (C08 / C09): touches only the tube
+//@   requires ref(t) != nil
+//@   modifies opaque(t)
+
+//@ func (m *Muxer) receiver()
+//@   property C11
+//@   loop 1
+//@     invariant len(m.readBuf) == 65535
